@@ -12,7 +12,7 @@
 (***************************************************************************)
 EXTENDS XPools, XCatalog, Json, CSV, IOUtils, SequencesExt
 
-CONSTANTS MaxNodes, UseCat, ElemNames, AttrNames, TextVals, WithComment, RelAxes, PredMode
+CONSTANTS MaxNodes, UseCat, CatIds, ElemNames, AttrNames, TextVals, WithComment, RelAxes, PredMode
 
 VARIABLES doc, grow, node, rel
 vars == <<doc, grow, node, rel>>
@@ -51,7 +51,7 @@ NewNodes(d) ==
 Init ==
     /\ node = 0 /\ rel = NoExpr
     /\ \/ MaxNodes > 1 /\ doc = EmptyDoc /\ grow = TRUE
-       \/ UseCat /\ \E i \in 1 .. Len(Catalogue) : doc = Catalogue[i] /\ grow = FALSE
+       \/ UseCat /\ \E i \in CatIds : doc = Catalogue[i] /\ grow = FALSE
 
 AddNode ==
     /\ grow /\ node = 0 /\ Len(doc) < MaxNodes
